@@ -908,3 +908,101 @@ Proof.
   assert (I : TRInv s) by (apply drain_tr, changed_set_holds_entries_in_every_history).
   exact (I _ Hr).
 Qed.
+
+(* ---- the cache only reads its source ---- *)
+Definition src_same (s s' : st) : Prop :=
+  files (src s') = files (src s) /\ dirs (src s') = dirs (src s) /\ faults (src s') = faults (src s).
+Lemma src_same_refl s : src_same s s. Proof. repeat split. Qed.
+Lemma src_same_trans a b c : src_same a b -> src_same b c -> src_same a c.
+Proof. intros (A & B & C) (D & E & F). repeat split; congruence. Qed.
+Lemma quiet_src_same s s' : quiet s s' -> src_same s s'.
+Proof. intros Q. repeat split; [apply (q_files _ _ Q)|apply (q_dirs _ _ Q)|apply (q_faults _ _ Q)]. Qed.
+Lemma src_same_by_src s s' : src s' = src s -> src_same s s'.
+Proof. intros E. unfold src_same. now rewrite E. Qed.
+
+Lemma fold_process_src : forall l s, src (fold_left process_msg l s) = src s.
+Proof. induction l as [|m r IH]; intros s; cbn [fold_left]; [reflexivity|]. rewrite IH. destruct m; reflexivity. Qed.
+Lemma drain_src s : src (drain s) = src s.
+Proof. unfold drain. cbn. apply fold_process_src. Qed.
+Lemma take_events_src es : forall s, src (take_events s es) = src s.
+Proof.
+  unfold take_events. induction es as [|d r IH]; intros s; cbn [fold_left]; [reflexivity|].
+  rewrite IH. destruct (g_get (graph s) (dep_of_dentry d)); reflexivity.
+Qed.
+Lemma reload_one_src fuel s k : src_same s (fst (reload_one fuel s k)).
+Proof.
+  unfold reload_one.
+  destruct (g_get (graph s) (DepAsset k)) as [n|]; [|apply src_same_refl].
+  destruct (g_typ n) as [t|]; [|apply src_same_refl].
+  destruct (cache_get s k) as [old|]; [|apply src_same_refl].
+  destruct (en_dyn old); cbn [negb]; [|apply src_same_refl].
+  pose proof (load_wrapped_quiet _ _ (proj1 (load_f_quiet fuel)) (proj2 (load_f_quiet fuel))
+                (rec_push s (Some [])) t (snd k)) as Q.
+  destruct (load_wrapped (load_entry_f fuel) (load_owned_f fuel) (rec_push s (Some [])) t (snd k)) as [[s1 tr] r].
+  cbn [fst] in Q. pose proof (quiet_push_pop s (Some []) s1 Q) as P.
+  destruct (rec_pop s1) as [s2 deps]. cbn [fst] in P. apply quiet_src_same in P.
+  destruct r as [[v tok]|e| |]; cbn [fst]; exact P.
+Qed.
+Lemma reload_all_src fuel : forall order s tr, src_same s (fst (reload_all fuel s order tr)).
+Proof.
+  induction order as [|k r IH]; intros s tr; cbn [reload_all]; [apply src_same_refl|].
+  pose proof (reload_one_src fuel s k) as H. destruct (reload_one fuel s k) as [s1 tr1]. cbn [fst] in H.
+  eapply src_same_trans; [exact H|apply IH].
+Qed.
+Lemma run_pass_src fuel s order : src_same s (fst (fst (run_pass fuel s order))).
+Proof.
+  unfold run_pass. pose proof (reload_all_src fuel order (set_to_reload s []) []) as R.
+  destruct (reload_all fuel (set_to_reload s []) order []) as [s1 tr]. exact R.
+Qed.
+
+Definition edits_source (o : op) : bool :=
+  match o with
+  | OWrite _ _ _ | ODelete _ _ | OUnreadable _ _ _ | OMkdir _ | ORmdir _ | ODirUnreadable _ _ | OSetFaults _ => true
+  | _ => false
+  end.
+
+(* no operation of the cache -- loads of any kind, look-ups, removals, notifications, reload passes,
+   polling -- changes a file, a directory or the fault plan of the source *)
+Ltac ss := first [apply src_same_refl | (unfold src_same; cbn; repeat split; reflexivity)].
+
+Theorem cache_operations_only_read_the_source fuel s o :
+  edits_source o = false -> src_same s (fst (fst (step fuel s o))).
+Proof.
+  intros E. destruct o; try discriminate E; cbn [step].
+  - pose proof (quiet_src_same _ _ (proj1 (load_f_quiet fuel) s t id)) as G.
+    destruct (load_entry_f fuel s t id) as [[s1 tr] r]. exact G.
+  - pose proof (quiet_src_same _ _ (proj2 (load_f_quiet fuel) s t id)) as G.
+    destruct (load_owned_f fuel s t id) as [[s1 tr] r]. exact G.
+  - pose proof (quiet_src_same _ _ (quiet_get_cached_rec s t id)) as G.
+    destruct (get_cached_rec s t id) as [s1 o]. exact G.
+  - pose proof (quiet_src_same _ _ (quiet_get_cached_rec (fst (bump_tok s)) t id)) as G.
+    destruct (bump_tok s) as [s1 tok] eqn:B. cbn [fst] in G.
+    assert (G1 : src_same s s1) by (unfold bump_tok in B; inversion B; repeat split).
+    destruct (get_cached_rec s1 t id) as [s2 o]. cbn [fst] in G.
+    destruct o as [e|]; cbn [fst]; [eapply src_same_trans; eauto|].
+    pose proof (quiet_src_same _ _ (quiet_cache_insert s2 (t, id) (mark_goi (mk_entry s2 t (VInt z "insert") tok)))) as G3.
+    destruct (cache_insert s2 (t, id) (mark_goi (mk_entry s2 t (VInt z "insert") tok))) as [[s3 e'] d].
+    cbn [fst] in *. eapply src_same_trans; [exact G1|]. eapply src_same_trans; eauto.
+  - ss.
+  - destruct (cache_get s (t, id)); ss.
+  - destruct (cache_get s (t, id)); ss.
+  - destruct (has_reloader s); ss.
+  - destruct (has_reloader s); [|ss].
+    assert (I1 : src_same s (take_events (drain s) es)) by (apply src_same_by_src; now rewrite take_events_src, drain_src).
+    destruct (static_mode (take_events (drain s) es)); [|exact I1].
+    pose proof (run_pass_src fuel (take_events (drain s) es) order) as R.
+    destruct (run_pass fuel (take_events (drain s) es) order) as [[s2 ok] tr]. cbn [fst] in *. eapply src_same_trans; eauto.
+  - destruct (has_reloader s); [|ss].
+    assert (I1 : src_same s (drain s)) by (apply src_same_by_src, drain_src).
+    destruct (static_mode s); [exact I1|].
+    pose proof (run_pass_src fuel (drain s) order) as R.
+    destruct (run_pass fuel (drain s) order) as [[s2 ok] tr]. cbn [fst] in *. eapply src_same_trans; eauto.
+  - destruct (has_reloader s && negb (static_mode s)); [|ss].
+    assert (I1 : src_same s (set_static (drain s) true)) by (apply src_same_by_src; cbn; apply drain_src).
+    pose proof (run_pass_src fuel (set_static (drain s) true) order) as R.
+    destruct (run_pass fuel (set_static (drain s) true) order) as [[s2 ok] tr]. cbn [fst] in *. eapply src_same_trans; eauto.
+  - ss.
+  - destruct (cache_get s (t, id)) as [e|]; [|ss]. destruct (en_dyn e); ss.
+  - destruct (cache_get s (t, id)); ss.
+  - destruct (assoc N.eqb w (watchers s)) as [[k last]|]; [|ss]. destruct (cache_get s k); ss.
+Qed.
